@@ -506,7 +506,9 @@ def gates_stream(ctx, lad):
                 oracle(case, 'fswap: Cubic.fswap(%d)' % i, cirq.unitary(g2), Fi @ U @ Fi.conj().T)
 
     # ---- gates from an InteractionOperator:  G_I = exp(+i H_I)
-    nops = budget(ctx.tier, 4, 30)
+    nops = budget(ctx.tier, 8, 40)
+    if ctx.drift:
+        nops = max(nops, 20)
     for it in range(nops):
         n = 4
         one = np.zeros((n, n), dtype=complex)
@@ -520,6 +522,21 @@ def gates_stream(ctx, lad):
         for _ in range(rng.randint(1, 5)):
             p, q, r_, s_ = (rng.randrange(n) for _ in range(4))
             c = complex(rng.randint(-4, 4) / 4, rng.randint(-4, 4) / 4)
+            two[p, q, r_, s_] += c
+            two[s_, r_, q, p] += c.conjugate()
+        # terms on exactly three and exactly four distinct modes, in every index arrangement
+        for _ in range(rng.randint(1, 3)):
+            idx = list(range(n))
+            rng.shuffle(idx)
+            c = complex(rng.randint(1, 4) / 4, rng.randint(-4, 4) / 4)
+            p, q, r_, s_ = idx
+            two[p, q, r_, s_] += c
+            two[s_, r_, q, p] += c.conjugate()
+        for _ in range(rng.randint(1, 3)):
+            a, b, c3 = rng.sample(range(n), 3)
+            p, q, r_, s_ = rng.choice([(a, b, a, c3), (a, b, c3, a), (b, a, a, c3), (b, a, c3, a),
+                                       (a, b, b, c3), (a, c3, b, c3), (c3, a, c3, b)])
+            c = complex(rng.randint(1, 4) / 4, rng.randint(-4, 4) / 4)
             two[p, q, r_, s_] += c
             two[s_, r_, q, p] += c.conjugate()
         const = rng.choice([0.0, 0.5, -1.25])
@@ -901,7 +918,7 @@ def primitives_stream(ctx, lad):
     rs = np.random.RandomState(rng.randrange(2 ** 31))
     nmax = 5 if (ctx.tier == 'thorough' or ctx.drift) else 4
     reps = budget(ctx.tier, 1, 4)
-    lad.prefetch(range(1, 9 if ctx.tier == 'thorough' else 7))
+    lad.prefetch(range(1, 9 if (ctx.tier == 'thorough' or ctx.drift) else 7))
 
     def check(case, what, d, tol=TOL, extra=None):
         st.float_comparisons += 1
@@ -1034,7 +1051,7 @@ def primitives_stream(ctx, lad):
                         check(case, 'state: prepare_gaussian_state default is the ground state',
                               abs((v.conj() @ Hm @ v).real - np.linalg.eigvalsh(Hm)[0]), 1e-8, extra=sg)
     # ffft
-    for n in range(1, (8 if ctx.tier == 'thorough' else 6) + 1):
+    for n in range(1, (8 if (ctx.tier == 'thorough' or ctx.drift) else 6) + 1):
         qubits = cirq.LineQubit.range(n)
         case = {'fn': 'ffft', 'n': n}
         st.case(case)
